@@ -161,7 +161,7 @@ fn check(args: &Args) -> i32 {
     let known = evidence::load_known(prop);
     let deadline_total = args.deadline_s.unwrap_or(match args.tier {
         Tier::Quick => 45,
-        Tier::Thorough => 1500,
+        Tier::Thorough => if prop == "C13" { 2400 } else { 1500 },
     });
     let n_scn = scns.len();
     let t0 = std::time::Instant::now();
